@@ -52,6 +52,8 @@ def surf_of(cfg, **kw):
         if c.get("ny", 3) % 2 == 0:
             c["ny"] += 1
     c.update(kw)
+    if "k_lam" in cfg:
+        c["extra"] = dict(c.get("extra") or {}, k_lam=cfg["k_lam"])
     return surface(**c)
 
 
@@ -190,6 +192,8 @@ _surf("LiftCoeff2D", "aerodynamics.lift_coeff_2D.LiftCoeff2D")
 _surf("TotalDrag", "aerodynamics.total_drag.TotalDrag")
 _surf("TotalLift", "aerodynamics.total_lift.TotalLift")
 _surf("ViscousDrag", "aerodynamics.viscous_drag.ViscousDrag", extra_opts=dict(with_viscous=True), cost=10,
+      # every laminar/turbulent branch of the friction estimate: fully turbulent, blended, fully laminar
+      cfgs=product(shapes_1surf(), SYM_Q, [dict(), dict(k_lam=0.0), dict(k_lam=1.0)]),
       ranges=[(r"^(P\.)?re", 1e5, 1e6), (r"^(P\.)?Mach", 0.2, 0.8), (r"^(P\.)?t_over_c", 0.05, 0.2), (r"cos_sweep", 0.7, 1.0)])
 _surf("ViscousDrag.off", "aerodynamics.viscous_drag.ViscousDrag", extra_opts=dict(with_viscous=False))
 # (the fourth power of the area-weighted averages makes the terms of WaveDrag grow too fast for more than two spanwise panels:
